@@ -32,7 +32,9 @@ def generate_cases(c, sd, module, cfg):
     if len(cases) != res.distinct - 1:
         raise Infra("case list incomplete: %d printed, %d distinct states" % (len(cases), res.distinct))
     c.cov["states"] += res.distinct; c.cov["transitions"] += res.generated
-    cases.sort(key=lambda e: json.dumps(e, sort_keys=True))       # TLC's print order depends on worker scheduling
+    # TLC's print order depends on worker scheduling: fix the replay order.  Cases with the same fixed key and COUNT are
+    # replayed back to back (bearer, direction, length varying), so that a result depending on the previous call shows.
+    cases.sort(key=lambda e: (e["op"], e["alg"], json.dumps(e["key"]), json.dumps(e["cnt"]), e["nbits"], e["bearer"], e["dir"], e["dpat"]))
     return cases
 
 
@@ -69,8 +71,12 @@ def run_value_conformance(c, kind, trace_module, gen_module, gen_cfg, gen_subst,
     c.cov["generated_cases"] = len(ev1); c.cov["recorded_random_calls"] = len(ev2)
     mism = c.validate(trace_module, events, shards=shards, timeout=3000)
 
+    order_note = {}
+
     def classify(idx, t):
         e = json.loads(events[idx]); verdict = t[5]
+        if verdict == "out-of-domain":
+            raise Infra("the driver made a call outside the domain of the property: %s" % events[idx][:300])
         cls = dict(value="wrong-output", length="wrong-length", error="unexpected-error", panic="panic").get(verdict, verdict)
         if verdict == "panic" and e["nbits"] == 0:
             cls = "panic-empty-message"
@@ -80,17 +86,42 @@ def run_value_conformance(c, kind, trace_module, gen_module, gen_cfg, gen_subst,
             e["op"], e["alg"], e["bearer"], e["dir"], e["nbits"],
             "panic in " + e["pfn"] if verdict == "panic" else "observed %s differs from the standard function (%s)" % (e["out"][:16], verdict),
             bytes(e["key"]).hex(), bytes(e["cnt"]).hex())
-        return (e["op"], cls, what, dict(case=case_of_event(e), observed=e,
-                                         how="harness/cmd/sec: sec replay [case] out.ndjson ; validate out.ndjson with spec/trace/%s" % trace_module))
+        obj = dict(case=case_of_event(e), observed=e,
+                   how="harness/cmd/sec: sec replay [case] out.ndjson ; validate out.ndjson with spec/trace/%s" % trace_module)
+        order_note["obj"] = obj
+        return (e["op"], cls, what, obj)
+
+    full = {}
 
     def confirm(idx, t):
+        # (1) the call alone, in a fresh process
         e = json.loads(events[idx])
         p = os.path.join(c.scratch, "confirm.json"); json.dump([case_of_event(e)], open(p, "w"))
         o = os.path.join(c.scratch, "confirm.ndjson")
         c.run_driver(drv, ["replay", p, o])
         again = c.validate(trace_module, read_ndjson(o), shards=1)
         c.cov["traces_validated_against_impl"] -= 1
-        return bool(again)
+        if again:
+            return True
+        # (2) the result may depend on the calls made before it: the complete run once more, in fresh processes
+        if not full:
+            o1 = os.path.join(c.scratch, "replay2.ndjson"); o2 = os.path.join(c.scratch, "record2.ndjson")
+            c.run_driver(drv, ["replay", cp, o1]); c.run_driver(drv, ["record", kind, o2])
+            ev2 = read_ndjson(o1) + read_ndjson(o2)
+            ev2 = [ev2[i] for i in perm]
+            if ev2 == events:
+                full["mism"] = {i for i, _ in mism}
+            else:
+                full["mism"] = {i for i, _ in c.validate(trace_module, ev2, shards=shards, timeout=3000)}
+                c.cov["traces_validated_against_impl"] -= len(ev2)
+        if idx in full["mism"]:
+            c.note("%s nbits=%d: wrong only after the preceding calls of the run (not when called alone in a fresh process): the result depends on earlier calls" % (e["op"], e["nbits"]))
+            inv = {o: n for n, o in enumerate(perm)}
+            o0 = perm[idx]
+            order_note["obj"]["preceding_calls"] = [case_of_event(json.loads(events[inv[j]])) for j in range(max(0, o0 - 12), o0)]
+            order_note["obj"]["how"] = "the result depends on earlier calls: sec replay [preceding_calls + case] out.ndjson ; validate with spec/trace/%s" % trace_module
+            return True
+        return False
     c.triage(mism, classify, confirm)
     for ln in events:
         e = json.loads(ln)
